@@ -65,6 +65,21 @@ def f32ok(a, b):
     return False
 
 
+def scramble(x):
+    """Edit a result in place, everywhere."""
+    if isinstance(x, dict):
+        for v in list(x.values()):
+            scramble(v)
+        x["__vf_edit__"] = 1
+    elif isinstance(x, list):
+        for v in x:
+            scramble(v)
+        x.append("__vf_edit__")
+    elif isinstance(x, tuple):
+        for v in x:
+            scramble(v)
+
+
 def one_case(sh, fa, SRE, rng, case, drop_bytes_default_fields=False):
     wjs, wnode, d = case["schema"], case["node"], case["datum"]
     ev = Evolver(rng)
@@ -113,9 +128,30 @@ def one_case(sh, fa, SRE, rng, case, drop_bytes_default_fields=False):
     st, got = guard(read_sl)
     if not judge(sh, SRE, st, got, verdict, want, info, "schemaless_reader"):
         return
+    if verdict == "value" and rng.random() < 0.3:
+        # every result is the caller's own: editing one must not show in the next read
+        # through the same schema objects (defaults handed out by reference would)
+        def twice():
+            w, r = fa.parse_schema(copy.deepcopy(wjs)), fa.parse_schema(copy.deepcopy(rjs))
+            a = fa.schemaless_reader(io.BytesIO(data), w, r)
+            scramble(a)
+            return fa.schemaless_reader(io.BytesIO(data), w, r)
+        st, got2 = guard(twice)
+        if st == "exc" or not f32ok(got2, want):
+            sh.violation("resolved-value-differs", "second read after the caller edited the first result: %s, the rules give %s"
+                         % (exc_name(got2) if st == "exc" else printable(got2, 250), printable(want, 250)), dict(info, edited_first_result=True))
+            return
+        sh.count("reread_after_editing_result")
     if rng.random() < 0.12:
         blob, _b = RK.write(wjs, [data, data], [1, 1], codec=rng.choice(["null", "deflate"]))
-        st, got = guard(lambda: list(fa.reader(io.BytesIO(blob), reader_schema=copy.deepcopy(rjs))))
+
+        def read_file():
+            it = fa.reader(io.BytesIO(blob), reader_schema=copy.deepcopy(rjs))
+            first = next(it)
+            keep = copy.deepcopy(first)
+            scramble(first)  # the caller edits a record while the file is still being read
+            return [keep] + list(it)
+        st, got = guard(read_file)
         if verdict == "value":
             if not judge(sh, SRE, st, got, verdict, [want, want], info, "reader"):
                 return
